@@ -56,8 +56,10 @@ Fixed(c) == SubSeq(c.sig, 1, NFix(c))
 VTail(c) == SubSeq(c.sig, NFix(c) + 1, Len(c.sig))
 ParamLocs(c) == PlaceAll(Fixed(c)).locs                       \* named parameters: psABI 3.2.3
 VaLocs(c) == VaAll(VaStart(Fixed(c)), VTail(c))               \* variadic reads: psABI 3.5.7 va_arg
-ParamWordSeqs(c) == [a \in 1..NFix(c) |-> WordsOf(c, c.sig[a], ParamLocs(c)[a])]
-VaWordSeqs(c) == [a \in 1..Len(VTail(c)) |-> WordsOf(c, VTail(c)[a], VaLocs(c)[a])]
+ParamWordSeqs(c) == LET locs == ParamLocs(c) IN [a \in 1..NFix(c) |-> WordsOf(c, c.sig[a], locs[a])]
+VaWordSeqs(c) == LET locs == VaLocs(c)
+                     tl == VTail(c)
+                 IN [a \in 1..Len(tl) |-> WordsOf(c, tl[a], locs[a])]
 
 (* position-sensitive checksum the bodies compute: limb k of S = sum over words of index * limb k, mod 2^16 *)
 RECURSIVE WSum(_, _, _)
